@@ -6,7 +6,7 @@
    every Detailed callback). *)
 From Coq Require Import List ZArith Lia Bool.
 Import ListNotations.
-Require Import CV.Orient CV.Hpwl CV.HpwlProofs CV.Optimiser CV.OptimiserProofs.
+Require Import CV.Orient CV.Hpwl CV.HpwlProofs CV.HpwlFoldProofs CV.Optimiser CV.OptimiserProofs.
 Local Open Scope Z_scope.
 
 (* [F] valueOnSwap / valueOnInsert: the value returned is the value at the candidate
@@ -50,6 +50,19 @@ Proof.
   intros s Hs. rewrite (ovalue_scratch s Hs). cbn [incr_build ivalue]. rewrite !sum_widths_map. reflexivity.
 Qed.
 
+(* [F] at construction (DetailedPlacer's constructor builds the x and the y model over all cells of
+   the circuit, pin offsets taken with the orientations of that moment) the optimised value IS
+   Circuit::hpwl of the circuit, and the state satisfies the invariant the theorems above need *)
+Theorem c05_initial_value_is_hpwl : forall cells nets subset,
+  (forall net, In net nets -> bounded (map (pin_px cells) net) /\ bounded (map (pin_py cells) net)) ->
+  let s := {| ox := circuit_topology true cells nets subset; oy := circuit_topology false cells nets subset |} in
+  OInv s /\ ovalue s = hpwl cells nets.
+Proof.
+  intros cells nets subset Hb. cbn zeta. split.
+  - split; unfold circuit_topology, topology; apply build_inv.
+  - unfold ovalue. cbn [ox oy]. apply circuit_value_is_hpwl. exact Hb.
+Qed.
+
 (* [V] the shift pass (runShiftsOnCells: dual of a min-cost flow solved by lemon's network
    simplex, not modelled): "value after <= value before" is checked on every driven pass and
    on every exposed state, not proved. *)
@@ -84,3 +97,4 @@ Print Assumptions c05_reordering_decreases.
 Print Assumptions c05_history_monotone.
 Print Assumptions c05_value_is_extent_sum.
 Print Assumptions c05_frozen_offsets_refuted.
+Print Assumptions c05_initial_value_is_hpwl.
